@@ -121,8 +121,7 @@ def run(chk, replay=None):
         "modelled not verified: inplace_stop_source internals (C03's model) — only the stop bit of each item's source is owned here",
         "modelling choices: one thread runs manual_event_loop::run(); compare_exchange_weak has no spurious failures (the shim maps it to strong); "
         "new_thread_context: the std::thread constructor is folded into the fetch_add that follows it and 'thread exited' is the derived "
-        "notion 'this and all earlier retirees are past retire_thread's unlock' (the join chain); static_thread_pool: progress (no deadlock) is "
-        "not proved, only explored; enqueue after request_stop()/stop() is a documented non-guarantee (items may stay queued)"]
+        "notion 'this and all earlier retirees are past retire_thread's unlock' (the join chain); enqueue after request_stop()/stop() is a documented non-guarantee (items may stay queued)"]
     chk.cov["rule"] = ("K1: all schedules of each program with <= bound preemptions plus seeded random ones; "
                        "distinct = distinct projected traces; non-trivial = at least two context switches among owned events. "
                        "K3 (trampoline): cases = (depth, tree); non-trivial = tree with >= 3 operations; distinct by input line")
